@@ -10,8 +10,14 @@ No interpretation happens here except:
   * `x.append(e)` as a statement, `x[i] = e`, `x[:k] = e` become the mutation statements of PyLite,
     which rebind x.  That is faithful only if no alias of the object is live, so they are admitted
     only when x provably (syntactically, see Fresh) holds a fresh list / array that has not escaped.
-  * the message expression of a `raise` is dropped (PyLite has one exception).
-  * `f(a, *e)` (one starred argument, last, no keywords) becomes ECallStar;
+  * the message expression of a `raise` is dropped (PyLite has one exception);
+  * `f(a, *rest)` (one starred argument, last, no keywords) becomes ECallStar; a comprehension with a
+    tuple target becomes ECompT; `zip(..)` is admitted only where it is consumed by iteration;
+  * `self.m(args)` as a statement becomes SMethod (the method may mutate self: PyLite rebinds self to what
+    the specification "mut:m" returns), admitted only when no alias of self can exist (see
+    Translator.self_method_call);
+  * for a method, the class's constant attributes (`name = <literal>` in the class body) are emitted as
+    `classattrs_<Class>_<method>` next to `bases_..`;
   * a nested loop target `for a, (b, c) in it: body` becomes `for a, %1 in it: b, c = %1; body` with a
     name %1 that is not a Python identifier (same bindings, same ValueError on a wrong length);
   * `x[:, i] = e` becomes SSetCol (x fresh, as for the other mutations);
@@ -91,6 +97,7 @@ class Translator:
     def __init__(self, modules):
         self.modules = set(modules)     # names bound by import statements of the file
         self.locals = set()             # names bound in the function being translated
+        self.iterated = set()           # ids of the expressions that are only iterated (for / comprehension / tuple(..))
 
     def dotted(self, node):
         """a.b.c rooted at an imported module -> 'a.b.c', else None"""
@@ -135,13 +142,20 @@ class Translator:
         if any(k.arg is None for k in e.keywords):
             raise Unsupported("** in call")
         if any(isinstance(a, ast.Starred) for a in pos):
-            # f(a, b, *seq): one starred argument, in the last position, no keywords, f a plain or module function
-            if e.keywords or any(isinstance(a, ast.Starred) for a in pos[:-1]):
-                raise Unsupported("* in call (only f(args, *seq) is in the fragment)")
-            name = f.id if isinstance(f, ast.Name) and f.id != "isinstance" else self.dotted(f)
-            if name is None or (isinstance(f, ast.Name) and f.id in self.modules):
-                raise Unsupported("* in a method call")
-            return "(ECallStar %s %s %s)" % (cstr(name), lst([self.expr(a) for a in pos[:-1]]), self.expr(pos[-1].value))
+            # f(a, b, *rest): one starred argument, the last one, and no keywords (PyLite's ECallStar)
+            if (e.keywords or not isinstance(pos[-1], ast.Starred)
+                    or any(isinstance(a, ast.Starred) for a in pos[:-1])):
+                raise Unsupported("* in call other than as the single last argument")
+            star = self.expr(pos[-1].value)
+            args = [self.expr(a) for a in pos[:-1]]
+            if isinstance(f, ast.Name) and f.id not in ("isinstance", "all", "any", "tuple", "list"):
+                return "(ECallStar %s %s %s)" % (cstr(f.id), lst(args), star)
+            if isinstance(f, ast.Attribute) and not (isinstance(f.value, ast.Call)):
+                name = self.dotted(f)
+                if name is not None:
+                    return "(ECallStar %s %s %s)" % (cstr(name), lst(args), star)
+                return "(ECallStar %s %s %s)" % (cstr("meth:" + f.attr), lst([self.expr(f.value)] + args), star)
+            raise Unsupported("callee of a call with * " + ast.dump(f)[:100])
         if (isinstance(f, ast.Name) and f.id in ("all", "any", "tuple", "list") and len(pos) == 1
                 and not e.keywords and isinstance(pos[0], ast.GeneratorExp)):
             g = pos[0]
@@ -149,6 +163,8 @@ class Translator:
                 return self.comp("CAll" if f.id == "all" else "CAny", g.generators, g.elt)
             # tuple(...) / list(...) consume the whole generator: a list comprehension
             return "(ECall %s %s)" % (cstr(f.id), lst([self.comp("CList", g.generators, g.elt)]))
+        if isinstance(f, ast.Name) and f.id in ("tuple", "list") and len(pos) == 1 and not e.keywords:
+            self.iterated.add(id(pos[0]))
         # a builtin function passed by keyword (sorted(x, key=sum)) is part of the callee's name
         fkw = [k for k in e.keywords if isinstance(k.value, ast.Name) and k.value.id in FUNC_NAMES
                and k.value.id not in self.locals]
@@ -158,6 +174,10 @@ class Translator:
             args = []
         else:
             args = [self.expr(a) for a in pos] + [self.expr(k.value) for k in vkw]
+        if isinstance(f, ast.Name) and f.id == "zip" and f.id not in self.locals and id(e) not in self.iterated:
+            # zip(..) is an iterator; PyLite renders it as a list, which is the same only when it is consumed
+            # by iteration: as the iterable of a for / comprehension or the argument of tuple(..) / list(..)
+            raise Unsupported("zip(..) used other than as the iterable of a for / comprehension / tuple() / list()")
         if isinstance(f, ast.Name):
             if f.id == "isinstance":
                 # isinstance(x, str|tuple|list): the class is part of the callee's name
@@ -187,8 +207,15 @@ class Translator:
         all / any, where any(e for i in A for j in B) is any(any(e for j in B) for i in A) (same order of
         evaluation, same laziness)"""
         g = generators[0]
-        if g.ifs or g.is_async or not isinstance(g.target, ast.Name):
+        self.iterated.add(id(g.iter))
+        if g.ifs or g.is_async:
             raise Unsupported("comprehension form")
+        if not isinstance(g.target, ast.Name):
+            # for a, b in it: a tuple target (PyLite's ECompT), single for clause only
+            if len(generators) > 1:
+                raise Unsupported("comprehension form")
+            return "(ECompT %s %s %s %s)" % (kind, lst([cstr(n) for n in target_names(g.target)]), self.expr(g.iter),
+                                             self.expr(elt))
         if len(generators) > 1:
             # [e for i in A for j in B] is the concatenation of [[e for j in B] for i in A]
             body = self.comp(kind, generators[1:], elt)
@@ -288,6 +315,31 @@ class Translator:
             return s.value.func.value.id, s.value.args[0]
         return None
 
+    def self_method_call(self, s):
+        """self.m(args) as a statement (the method may mutate self: PyLite's SMethod, which rebinds self).
+        Admitted only when `self` is the function's first parameter and no alias of it can exist: every
+        occurrence of the name `self` in the function is the object of an attribute access / method call
+        (`self.a`, `self.m(..)`) or the value of a `return self`."""
+        if not (isinstance(s, ast.Expr) and isinstance(s.value, ast.Call) and isinstance(s.value.func, ast.Attribute)
+                and isinstance(s.value.func.value, ast.Name) and s.value.func.value.id == "self"):
+            return None
+        c = s.value
+        fn = self.function
+        if not (fn.args.args and fn.args.args[0].arg == "self"):
+            raise Unsupported("self.m(..) statement in a function whose first parameter is not self")
+        if c.keywords or any(isinstance(a, ast.Starred) for a in c.args):
+            raise Unsupported("self.m(..) statement with keyword / starred arguments")
+        ok = set()
+        for n in ast.walk(fn):
+            if isinstance(n, ast.Attribute) and isinstance(n.value, ast.Name) and n.value.id == "self":
+                ok.add(id(n.value))
+            elif isinstance(n, ast.Return) and isinstance(n.value, ast.Name) and n.value.id == "self":
+                ok.add(id(n.value))
+        for n in ast.walk(fn):
+            if isinstance(n, ast.Name) and n.id == "self" and id(n) not in ok:
+                raise Unsupported("self.m(..) statement in a function where self may be aliased")
+        return c.func.attr, list(c.args)
+
     def stmts(self, body):
         out = []
         for pos_, s in enumerate(body):
@@ -370,6 +422,7 @@ class Translator:
             elif isinstance(s, ast.For):
                 if s.orelse:
                     raise Unsupported("for ... else")
+                self.iterated.add(id(s.iter))
                 names, unpack = loop_targets(s.target)
                 body_ = self.stmts(s.body)
                 if unpack:
@@ -383,8 +436,11 @@ class Translator:
                 out.append("SPass")
             elif isinstance(s, ast.Expr):
                 ap = self.append_call(s)
+                sm = self.self_method_call(s)
                 if ap is not None:
                     out.append("SAppend %s %s" % (cstr(ap[0]), self.expr(ap[1])))
+                elif sm is not None:
+                    out.append("SMethod %s %s %s" % (cstr("self"), cstr(sm[0]), lst([self.expr(a) for a in sm[1]])))
                 else:
                     out.append("SExpr %s" % self.expr(s.value))
             else:
@@ -613,6 +669,42 @@ class Fresh:
                 raise Unsupported(type(s).__name__)
 
 
+def literal_val(node):
+    """a PyLite value for a literal expression, or None"""
+    if isinstance(node, ast.Constant):
+        v = node.value
+        if v is None:
+            return "VNone"
+        if isinstance(v, bool):
+            return "(VB %s)" % ("true" if v else "false")
+        if isinstance(v, int):
+            return "(VZ %s)" % cZ(v)
+        if isinstance(v, float):
+            f = Fraction(v)
+            return "(VQ (%d # %d))" % (f.numerator, f.denominator)
+        if isinstance(v, str):
+            return "(VS %s)" % cstr(v)
+        return None
+    if isinstance(node, (ast.Tuple, ast.List)):
+        items = [literal_val(x) for x in node.elts]
+        if any(i is None for i in items):
+            return None
+        return "(%s %s)" % ("VT" if isinstance(node, ast.Tuple) else "VL", lst(items))
+    return None
+
+
+def class_constants(cls):
+    """[(name, PyLite value)] for the class-level assignments `name = <literal>`, later ones first (as a lookup
+    table: the last assignment wins)"""
+    out = []
+    for n in cls.body:
+        if isinstance(n, ast.Assign) and len(n.targets) == 1 and isinstance(n.targets[0], ast.Name):
+            v = literal_val(n.value)
+            if v is not None:
+                out.insert(0, (n.targets[0].id, v))
+    return out
+
+
 def imported_names(tree):
     names = set()
     for n in tree.body:
@@ -653,6 +745,19 @@ def translate(path, names):
             ident = qual.replace(".", "_")
             found[qual] = "Definition src_%s : func :=\n  {| f_params := %s;\n     f_body := %s |}.\n" % (
                 ident, lst([cstr(p) for p in params]), body)
+            # default values of the trailing parameters (constants only; a function with any other
+            # default gets no defaults_ definition, so a proof that needs it fails closed)
+            try:
+                dnames = params[len(params) - len(a.defaults):] if a.defaults else []
+                dvals = []
+                for d in a.defaults:
+                    if not isinstance(d, ast.Constant):
+                        raise Unsupported("non-constant default")
+                    dvals.append(tr.expr(d))
+                found[qual] += "Definition defaults_%s : list (string * expr) := %s.\n" % (
+                    ident, lst(["(%s, %s)" % (cstr(n_), v_) for n_, v_ in zip(dnames, dvals)]))
+            except Unsupported:
+                pass
             if cls is not None:
                 if cls.keywords and any(k.arg != "metaclass" for k in cls.keywords):
                     raise Unsupported("class keywords of " + cls.name)
@@ -662,6 +767,10 @@ def translate(path, names):
                         raise Unsupported("base class expression of " + cls.name)
                     bases.append(b.id)
                 found[qual] += "Definition bases_%s : list string := %s.\n" % (ident, lst([cstr(b) for b in bases]))
+                # the class's own constant attributes (`dims = ("northing", "easting")`): name = literal of
+                # strings / numbers / None / tuples / lists; anything else in the class body is not listed
+                found[qual] += "Definition classattrs_%s : list (string * val) := %s.\n" % (
+                    ident, lst(["(%s, %s)" % (cstr(k), v) for k, v in class_constants(cls)]))
     missing = [n for n in names if n not in found]
     if missing:
         raise Unsupported("functions not found: %s" % missing)
